@@ -47,26 +47,35 @@ theorem ifcreate_twice :
   unfold wC histC rules0
   eval_run
 
-/-- 1 = `t` (11), 2 = `p` (12: `redo-ifchange t`), 3 = `q` (13: `redo-ifchange p`).  `t` is built, then
-overwritten by hand and accepted as overridden; then it is edited by hand again. -/
-def histO : List UserOp :=
+/-- 1 = `t` (11), 2 = `p` (12: `redo-ifchange t`, later edited to declare nothing), 3 = `q` (13: `redo-ifchange t`),
+4 = `r` (14: `redo-ifchange q`). -/
+def rulesF : Nat → List Nat := fun t => if t = 1 ∨ t = 2 ∨ t = 3 ∨ t = 4 then [10 + t] else []
+
+/-- `t` is built, overwritten by hand and accepted as overridden, `p` is brought up to date, then `t` is removed;
+the check of `p` (whose .do no longer asks for `t`) turns the record of `t` into a source with failure mark 0 and
+the override flag kept; then `t` is written by hand again. -/
+def histF : List UserOp :=
   [ .setProg (srcContent 1) { },
     .setProg (srcContent 2) { ifchange := [[1]] },
-    .setProg (srcContent 3) { ifchange := [[2]] },
-    .write 11 1, .write 12 2, .write 13 3,
-    .cmd (.ifchange [1] false),
-    .write 1 7, .cmd (.ifchange [1] false),
-    .write 1 8 ]
+    .setProg (srcContent 3) { ifchange := [[1]] },
+    .setProg (srcContent 4) { ifchange := [[3]] },
+    .setProg (srcContent 5) { },
+    .write 11 1, .write 12 2, .write 13 3, .write 14 4,
+    .cmd (.ifchange [1] false), .cmd (.ifchange [2] false),
+    .write 1 7, .cmd (.ifchange [1] false), .cmd (.ifchange [2] false),
+    .remove 1, .write 12 5, .cmd (.ifchange [2] false),
+    .write 1 9 ]
 
-def wO : World := runOps {} 0 histO (initWorld rules0)
+def wF : World := runOps {} 0 histF (initWorld rulesF)
 
-
+set_option maxRecDepth 8000 in
 set_option maxHeartbeats 4000000 in
-/-- Every request finds the overridden, re-edited `t` dirty (its recorded stamp is never refreshed), so
-`p` is rebuilt for each of its two requests in the run.  Order of execution: p, q, p. -/
-theorem override_twice :
-    ranList (runCmd {} 0 (.ifchange [2, 3] false) { wO with trace := [] }).2 = [2, 3, 2] := by
-  unfold wO histO rules0
+/-- The record of `t` (overridden, not generated, failure mark 0) is never repaired — `start_self` leaves such a
+file alone — so every request finds `t` dirty and `q` is rebuilt for each of its two requests in the run.
+Order of execution: q, r, q. -/
+theorem override_unfailed_twice :
+    ranList (runCmd {} 0 (.ifchange [3, 4] false) { wF with trace := [] }).2 = [3, 4, 3] := by
+  unfold wF histF rulesF
   eval_run
 
 /-- 1 = `t` (11: `redo-always`), 3 = `a` (13: `redo-ifchange t`); a file named like the `//ALWAYS` pseudo file
@@ -143,15 +152,19 @@ theorem wD_not_clean : ¬ Clean wD := by
   have := h.hyg.dofiles 1 5 (by simp [wD, runOps, histD, applyOp, initWorld, rulesD, setFile, newNode])
   simp [wD, runOps, histD, applyOp, initWorld, rulesD, setFile, newNode] at this
 
+set_option maxRecDepth 8000 in
 set_option maxHeartbeats 4000000 in
-theorem wO_not_clean : ¬ Clean wO := by
+theorem wF_not_clean : ¬ Clean wF := by
   intro h
-  have h1 : (wO.recs 1).isOverride = true := by
-    unfold wO histO rules0
+  have h1 : (wF.recs 1).isOverride = true := by
+    unfold wF histF rulesF
     eval_run
-  have h2 := (h.ov 1 h1).2
-  revert h2
-  unfold wO histO rules0
+  have h2 : existsF wF 1 = true := by
+    unfold wF histF rulesF
+    eval_run
+  have h3 := (h.ov 1 h1 h2).1
+  revert h3
+  unfold wF histF rulesF
   eval_run
 
 end Cex
